@@ -550,7 +550,7 @@ def rule_offsetof(chk, prog, tier):
 
 # ------------------------------------------------------------------ C06.e array types
 
-def array_type(prog, it, w, el, dims, vla=()):
+def array_type(prog, it, w, el, dims, vla=(), star=()):
     """the type the real declarator() builds for `el a[d0][d1]...`: declaratortypes is replaced by a model that links one array type per dimension (what it does for `[n]` suffixes);
     a dimension listed in `vla` gets a non-constant length expression"""
     fn = prog.require_func('declarator', 'decl.c')
@@ -560,7 +560,10 @@ def array_type(prog, it, w, el, dims, vla=()):
         for k, n in enumerate(dims):
             t = i2.call('mkarraytype', [None, 0, 0])
             ty = w.t('int') if -2 ** 31 <= n < 2 ** 31 else (w.t('long') if n < 2 ** 63 else w.t('ulong'))
-            if k in vla:
+            if k in star:
+                # `[*]`: what declaratortypes leaves behind - variably modified, complete, no length expression
+                t.obj.f[('prop',)] = (i2.load(t.obj, ('prop',)) or 0) | ev(prog, 'PROPVM')
+            elif k in vla:
                 t.obj.f[('u', 'array', 'length')] = w.mkexpr('EXPRIDENT', ty)
             else:
                 t.obj.f[('u', 'array', 'length')] = w.mkexpr('EXPRCONST', ty, u__constant__u=n % 2 ** 64)
